@@ -1,17 +1,26 @@
 #!/usr/bin/env python3
-"""Prints the markdown table of DESIGN.md section 7 from seeded/*/meta.json."""
+"""Prints the markdown table of DESIGN.md section 7 from seeded/*/meta.json (sorted by property, then round)."""
 import glob, json, os
 V = os.path.dirname(os.path.dirname(os.path.abspath(__file__)))
 rows = []
 for p in sorted(glob.glob(V + "/seeded/*/meta.json")):
     m = json.load(open(p))
-    det = [c for c in m.get("detected_by", [])]
+    det = list(m.get("detected_by", []))
     tgt = m["breaks_property"]
     first = m.get("first_evaluation")
-    note = m.get("strengthening", "")
-    rows.append((m["name"], tgt, m["summary"], "yes" if tgt in det else "**no**", ", ".join(c for c in det if c != tgt) or "—",
-                 ("missed → " + note) if first == "missed" else ("caught as built" if first == "caught" else first or "")))
-print("| seeded change | property | what was changed | target check detects (quick tier) | other checks that report it | first evaluation |")
-print("|---|---|---|---|---|---|")
+    note = (m.get("strengthening") or "").strip()
+    c = m.get("confirmed_by_me") or {}
+    conf = c.get("demo_on_changed_tree_exit") not in (None, 0) and c.get("demo_on_unchanged_tree_exit") == 0 and (c.get("repository_tests_on_changed_tree") or {}).get("exit") == 0
+    others = ", ".join(x for x in det if x != tgt)
+    hist = "caught as built" if first == "caught" else ("missed → " + note) if first == "missed" else (first or "")
+    if first == "caught" and note: hist += " (" + note + ")"
+    rows.append((tgt, m.get("round", 1), m["name"], m["summary"].replace("|", "/"), "yes" if tgt in det else ("**no** (" + others + ")" if others else "**no**"),
+                 others or "—", hist.replace("|", "/"), "yes" if conf else "**no**"))
+rows.sort()
+print("| property | round | seeded change (`seeded/<name>/`) | what was changed | target check reports it (quick tier) | other checks run that report it | first evaluation → what was strengthened | demo fails / passes, repository tests pass (re-run by me) |")
+print("|---|---|---|---|---|---|---|---|")
 for r in rows:
-    print("| `%s` | %s | %s | %s | %s | %s |" % r)
+    print("| %s | %d | `%s` | %s | %s | %s | %s | %s |" % r)
+n = len(rows); caught = sum(1 for r in rows if r[6].startswith("caught")); tg = sum(1 for r in rows if r[4] == "yes")
+print()
+print("%d seeded changes kept; %d were reported by the checks as they stood when the change arrived, %d were missed first; %d are reported by the target check's quick tier now." % (n, caught, n - caught, tg))
